@@ -123,16 +123,16 @@ class GenericQuantity(object):
     def __eq__(self, other):
         (self_value, self_units) = self._unpack_qty(self)
         (other_value, other_units) = self._unpack_qty(other)
-        if not is_zero(other) and (not other_units or
-                                   not self.has_units(other_units)):
+        if ((not other_units and not is_zero(other_value)) or
+                (other_units and not self.has_units(other_units))):
             return False
         return self_value == other_value
 
     def __ne__(self, other):
         (self_value, self_units) = self._unpack_qty(self)
         (other_value, other_units) = self._unpack_qty(other)
-        if not is_zero(other) and (not other_units or
-                                   not self.has_units(other_units)):
+        if ((not other_units and not is_zero(other_value)) or
+                (other_units and not self.has_units(other_units))):
             return True
         return self_value != other_value
 
@@ -149,8 +149,8 @@ class GenericQuantity(object):
     def __lt__(self, other):
         (self_value, self_units) = self._unpack_qty(self)
         (other_value, other_units) = self._unpack_qty(other)
-        if (not is_zero(other_value) and
-                (not other_units or not self.has_units(other_units))):
+        if ((not other_units and not is_zero(other_value)) or
+                (other_units and not self.has_units(other_units))):
             raise UnitsError(
                 'Incompatible units %s vs %s in comparison'
                 % (self_units, other_units))
@@ -159,8 +159,8 @@ class GenericQuantity(object):
     def __gt__(self, other):
         (self_value, self_units) = self._unpack_qty(self)
         (other_value, other_units) = self._unpack_qty(other)
-        if (not is_zero(other_value) and
-                (not other_units or not self.has_units(other_units))):
+        if ((not other_units and not is_zero(other_value)) or
+                (other_units and not self.has_units(other_units))):
             raise UnitsError(
                 'Incompatible units %s vs %s in comparison'
                 % (self_units, other_units))
@@ -169,8 +169,8 @@ class GenericQuantity(object):
     def __ge__(self, other):
         (self_value, self_units) = self._unpack_qty(self)
         (other_value, other_units) = self._unpack_qty(other)
-        if (not is_zero(other_value) and
-                (not other_units or not self.has_units(other_units))):
+        if ((not other_units and not is_zero(other_value)) or
+                (other_units and not self.has_units(other_units))):
             raise UnitsError(
                 'Incompatible units %s vs %s in comparison'
                 % (self_units, other_units))
@@ -179,8 +179,8 @@ class GenericQuantity(object):
     def __le__(self, other):
         (self_value, self_units) = self._unpack_qty(self)
         (other_value, other_units) = self._unpack_qty(other)
-        if (not is_zero(other_value) and
-                (not other_units or not self.has_units(other_units))):
+        if ((not other_units and not is_zero(other_value)) or
+                (other_units and not self.has_units(other_units))):
             raise UnitsError(
                 'Incompatible units %s vs %s in comparison'
                 % (self_units, other_units))
@@ -189,8 +189,8 @@ class GenericQuantity(object):
     def __add__(self, other):
         (self_value, self_units) = self._unpack_qty(self)
         (other_value, other_units) = self._unpack_qty(other)
-        if (not is_zero(other_value) and
-                (not other_units or not self.has_units(other_units))):
+        if ((not other_units and not is_zero(other_value)) or
+                (other_units and not self.has_units(other_units))):
             raise UnitsError(
                 'Incompatible units %s vs %s in addition'
                 % (self_units, other_units))
@@ -199,8 +199,8 @@ class GenericQuantity(object):
     def __radd__(self, other):
         (self_value, self_units) = self._unpack_qty(self)
         (other_value, other_units) = self._unpack_qty(other)
-        if (not is_zero(other_value) and
-                (not other_units or not self.has_units(other_units))):
+        if ((not other_units and not is_zero(other_value)) or
+                (other_units and not self.has_units(other_units))):
             raise UnitsError(
                 'Incompatible units %s vs %s in addition'
                 % (self_units, other_units))
@@ -209,8 +209,8 @@ class GenericQuantity(object):
     def __sub__(self, other):
         (self_value, self_units) = self._unpack_qty(self)
         (other_value, other_units) = self._unpack_qty(other)
-        if (not is_zero(other_value) and
-                (not other_units or not self.has_units(other_units))):
+        if ((not other_units and not is_zero(other_value)) or
+                (other_units and not self.has_units(other_units))):
             raise UnitsError(
                 'Incompatible units %s vs %s in subtraction'
                 % (self_units, other_units))
@@ -219,8 +219,8 @@ class GenericQuantity(object):
     def __rsub__(self, other):
         (self_value, self_units) = self._unpack_qty(self)
         (other_value, other_units) = self._unpack_qty(other)
-        if (not is_zero(other_value) and
-                (not other_units or not self.has_units(other_units))):
+        if ((not other_units and not is_zero(other_value)) or
+                (other_units and not self.has_units(other_units))):
             raise UnitsError(
                 'Incompatible units %s vs %s in subtraction'
                 % (self_units, other_units))
